@@ -23,10 +23,13 @@ import json
 import common
 import pyfacts
 
-LEAN_MODULES = ['Yaql.Props.C04Dispatch', 'Yaql.Props.C04DispatchGenA', 'Yaql.Props.C04DispatchGenB',
-                'Yaql.Props.C04DispatchGenC', 'Yaql.Props.C04DispatchGenD', 'Yaql.Props.C04DispatchGen']
+# C04DispatchGen imports the per-site kernel checks C04DispatchGenA..D (132 theorems `obs_* inv_* reps_*`); they are built with
+# it and audited through `C04Dispatch_partial`, which uses every one of them (a failing part is then built twice, not thrice)
+LEAN_MODULES = ['Yaql.Props.C04Dispatch', 'Yaql.Props.C04DispatchEval', 'Yaql.Props.C04DispatchGen']
 REQUIRED_THEOREMS = ['Yaql.Props.C04Dispatch.' + n for n in (
-    'resolve_congr resolve_kinds pattern_ok').split()] + ['Yaql.Props.C04DispatchGen.' + n for n in (
+    'resolve_congr resolve_kinds pattern_ok').split()] + ['Yaql.Props.C04DispatchEval.' + n for n in (
+        'binop_dispatch litOk_early unop_dispatch indexer_dispatch memberOf_dispatch lambda_method_receiver').split()] + [
+    'Yaql.Props.C04DispatchGen.' + n for n in (
         'C04Dispatch_partial dispatch_on_values table_sane callee_groups property_functions property_unknown').split()]
 TRUSTED = ['harness/gens/regtypes.py: the translation of the live smart types into Yaql.Types.PTy (validators and expression '
            'classes identified by their verdicts on probe values; `issubclass` on the live classes), cross-checked by the '
